@@ -19,6 +19,7 @@ CONSTANTS Keys,        \* key identifiers
           P,           \* number of partitions
           Hosted,      \* partitions (0..P-1) hosted by the server
           Vals,        \* values
+          NsOf,        \* [Keys -> namespace]: a multi-key command names keys of ONE namespace
           RouteMulti,  \* "perkey" (the design) | "firstkey" (mutant: whole command to the first key's partition)
           OwnerShift,  \* 0 (the design) | 1 (mutant: the server computes another partition than the SDK)
           RejectUnhosted \* TRUE (the design) | FALSE (mutant: an unhosted key is served by some hosted partition)
@@ -61,7 +62,10 @@ Target(k)   == IF Owner(k) \in Hosted \/ RejectUnhosted THEN Owner(k) ELSE Stand
 Served(k)   == Target(k) \in Hosted
 \* partition that key number i of a multi-key command is sent to
 MultiTarget(ks, i) == IF RouteMulti = "perkey" THEN Target(ks[i]) ELSE Target(ks[1])
-MultiServed(ks)    == \A i \in DOMAIN ks : MultiTarget(ks, i) \in Hosted
+OneNs(ks)          == \A i \in DOMAIN ks : NsOf[ks[i]] = NsOf[ks[1]]
+\* a multi-key command is served iff all its keys are of one namespace and every partition
+\* it needs is hosted; otherwise it is rejected as a whole and nothing changes
+MultiServed(ks)    == OneNs(ks) /\ \A i \in DOMAIN ks : MultiTarget(ks, i) \in Hosted
 \* sub-sequence of ks that goes to partition p
 SubKeys(ks, p) == LET idx == {i \in DOMAIN ks : MultiTarget(ks, i) = p}
                       F[n \in 0..Len(ks)] == IF n = 0 THEN <<>>
